@@ -9,6 +9,8 @@ for d in sorted(glob.glob('/verif/seeded/C*')):
     engines = sorted(set(re.findall(r'engine=(\w+) clause=([\w:.-]+)', det)))
     eng = ', '.join('%s `%s`' % e for e in engines[:3]) or ('-' if det else 'not run yet')
     status = {'1': 'detected', '0': '**not detected**', '2': 'machinery failure'}.get(code.group(1) if code else '', 'pending')
+    if det.startswith('engine-run:'):
+        status = 'detected (engine run directly, see detect.txt)'
     summary = (m.get('summary') or '').replace('|', '/').replace('\n', ' ')
     if len(summary) > 150:
         summary = summary[:147] + '...'
